@@ -19,6 +19,7 @@ from translate import c02_blockvars
 
 KNOWN_FOR_TARGET = 'for-target-killed-on-zero-iterations'
 KNOWN_PREV_ITER = 'get-state-reads-variable-bound-only-by-previous-iteration'
+KNOWN_SPECULATIVE = 'speculative-branch-after-lowered-jump-reads-undefined'
 _last_exc = {}
 
 
@@ -202,6 +203,21 @@ def is_prev_iteration_finding(src, b):
     return False
 
 
+def is_speculative_jump_finding(src, b):
+    """the converted function raised UnboundLocalError from Undefined.read (ag__.ld of a placeholder) and the program
+    has a return / break / continue nested in a compound statement: the jump is lowered to a flag and the code it
+    used to skip sits in an `if not flag:` branch that a both-branches backend runs speculatively"""
+    if b[0] != 'raise' or b[1] != 'NameError' or not _last_exc or _last_exc.get('frame') != 'read':
+        return False
+    tree = ast.parse(src)
+    fn = tree.body[0]
+    for st in fn.body:
+        for n in ast.walk(st):
+            if isinstance(n, (ast.Return, ast.Break, ast.Continue)) and n is not st:
+                return True
+    return False
+
+
 def closure_programs(rnd):
     """local functions closing over a variable that a later control statement assigns, reached directly, through a
     sibling closure, a two-hop chain or an alias; the variable is read after the statement only through them"""
@@ -344,6 +360,9 @@ def check(run):
                     continue     # the original itself fails (e.g. TypeError): outside "computes what the original computes"
                 if is_prev_iteration_finding(src, b):
                     run.violation('get_state raised', {}, classify=KNOWN_PREV_ITER)
+                    continue
+                if is_speculative_jump_finding(src, b):
+                    run.violation('speculative branch read an undefined variable', {}, classify=KNOWN_SPECULATIVE)
                     continue
                 failures.append(('tracing backend result differs: original %r, converted %r' % (a, b), src))
             if len(run.samples) < 3 and ncalls >= 3:
